@@ -21,7 +21,8 @@ def default_cfg(cls, N, rng, cplx, tone=False):
         P = int(rng.integers(1, 4)); Q = int(rng.integers(1, 4))
         # lag >= 2P: the modified Yule-Walker least-squares step (covariance method of order P on `lag` lags) must not be
         # under-determined, otherwise the AR part is 0/0 rounding noise (degenerate configuration, outside every property)
-        lag = int(rng.integers(max(Q, 2 * P) + 2, max(Q, 2 * P) + 8))
+        lo = max(Q, 2 * P) + 2
+        lag = int(rng.integers(lo, max(lo, min(lo + 6, N - 2 * P + Q)) + 1))     # documented domain: lag + 2P - Q <= N
         return {'P': P, 'Q': Q, 'lag': lag}
     if cls == 'pma':
         Q = int(rng.integers(1, 4)); M = int(rng.integers(Q + 2, Q + 10))
